@@ -37,6 +37,10 @@ pub struct Life {
     pub ops: Vec<WOp>,
     /// die right before the n-th scheduling point of this life (None: clean exit)
     pub stop_at: Option<u32>,
+    /// instead of dying at `stop_at`, stay alive but never run again (a stalled daemon keeps its
+    /// descriptors, locks and mappings; it cannot be restarted while it is still there)
+    #[serde(default)]
+    pub stall: bool,
 }
 
 #[derive(Clone, Debug, Serialize, Deserialize, PartialEq)]
@@ -448,6 +452,7 @@ pub fn run_conc(case: &ConcCase, env: &mut Env, opts: &RunOpts) -> ConcRun {
         });
     }
     let mut last_life_crashed = false;
+    let mut stalled: Option<usize> = None;
     let mut life_first_pub: u32 = 0;
     let mut dfs_last: Option<usize> = None;
     loop {
@@ -462,7 +467,7 @@ pub fn run_conc(case: &ConcCase, env: &mut Env, opts: &RunOpts) -> ConcRun {
         let writer_gone = writer.is_none() && next_life >= case.lives.len();
         let mut runnable: Vec<usize> = vec![];
         for i in 0..ctl.threads.len() {
-            if !ctl.alive(i) {
+            if !ctl.alive(i) || Some(i) == stalled {
                 continue;
             }
             if let Some(Pending::Wait(k)) = ctl.threads[i].pending {
@@ -474,7 +479,7 @@ pub fn run_conc(case: &ConcCase, env: &mut Env, opts: &RunOpts) -> ConcRun {
         }
         if runnable.is_empty() {
             // only blocked readers remain and the writer cannot make progress: release them
-            let blocked: Vec<usize> = (0..ctl.threads.len()).filter(|i| ctl.alive(*i)).collect();
+            let blocked: Vec<usize> = (0..ctl.threads.len()).filter(|i| ctl.alive(*i) && Some(*i) != stalled).collect();
             if blocked.is_empty() {
                 break;
             }
@@ -556,7 +561,12 @@ pub fn run_conc(case: &ConcCase, env: &mut Env, opts: &RunOpts) -> ConcRun {
                             (s.threads[tid].sched_points, s.threads[tid].stop_at)
                         };
                         if alive && st.is_some() && Some(sp - 1) == st {
-                            ctl.crash(wi);
+                            if case.lives[writer_life].stall {
+                                stalled = Some(wi);
+                                next_life = case.lives.len();
+                            } else {
+                                ctl.crash(wi);
+                            }
                             { last_life_crashed = true; end_life(&ctl, writer_life, wi, true, &shared); }
                             writer = None;
                             break;
@@ -658,7 +668,13 @@ pub fn run_conc(case: &ConcCase, env: &mut Env, opts: &RunOpts) -> ConcRun {
                 { last_life_crashed = false; end_life(&ctl, writer_life, i, false, &shared); }
                 writer = None;
             } else if st.is_some() && Some(sp - 1) == st {
-                ctl.crash(i);
+                if case.lives[writer_life].stall {
+                    // a stalled daemon: alive, holding whatever it holds, never scheduled again
+                    stalled = Some(i);
+                    next_life = case.lives.len();
+                } else {
+                    ctl.crash(i);
+                }
                 { last_life_crashed = true; end_life(&ctl, writer_life, i, true, &shared); }
                 writer = None;
             }
@@ -1021,6 +1037,7 @@ fn c02_strategy() -> BoxedStrategy<ConcCase> {
             lives: vec![Life {
                 ops: vec![WOp::Publish(pubs)],
                 stop_at: None,
+                stall: false,
             }],
             readers,
             policy,
@@ -1030,10 +1047,19 @@ fn c02_strategy() -> BoxedStrategy<ConcCase> {
         .prop_flat_map(|c| {
             // one case in 200: the writer is never scheduled again from some point on (a stalled or
             // dead writer is one of the schedules C02 quantifies over)
-            (Just(c), prop_oneof![199 => Just(None), 1 => (5u32..60).prop_map(Some)])
+            // half of those: the daemon is then restarted on the segment it left behind and publishes
+            // again, readers running throughout (a restart is one more schedule of the same writer)
+            (Just(c), prop_oneof![199 => Just((None, 0u32)), 1 => (5u32..60, 0u32..3).prop_map(|(s, r)| (Some(s), r))])
         })
-        .prop_map(|(mut c, stop)| {
+        .prop_map(|(mut c, (stop, restart))| {
             c.lives[0].stop_at = stop;
+            if restart > 0 {
+                c.lives.push(Life {
+                    ops: vec![WOp::Publish(restart)],
+                    stop_at: None,
+                    stall: false,
+                });
+            }
             c
         })
         .boxed()
@@ -1153,6 +1179,7 @@ impl Property for C02 {
             lives: vec![Life {
                 ops: vec![WOp::Skip(32767)],
                 stop_at: None,
+                stall: false,
             }],
             readers: vec![vec![ROp::Snap]],
             policy: Policy::Random,
@@ -1368,6 +1395,7 @@ pub fn smallest_scope(start_gen: u16) -> ConcCase {
         lives: vec![Life {
             ops: vec![WOp::Publish(1)],
             stop_at: None,
+            stall: false,
         }],
         readers: vec![vec![ROp::Open, ROp::Snap]],
         policy: Policy::Dfs { script: vec![] },
@@ -1477,7 +1505,7 @@ fn c03_strategy() -> BoxedStrategy<ConcCase> {
     )
         .prop_map(|(init, ops, readers, policy, sched, reads)| ConcCase {
             init,
-            lives: vec![Life { ops, stop_at: None }],
+            lives: vec![Life { ops, stop_at: None, stall: false }],
             readers,
             policy,
             sched,
@@ -1550,6 +1578,7 @@ impl Property for C03 {
                     lives: vec![Life {
                         ops: vec![WOp::Publish(1), WOp::Skip(n), WOp::Publish(1)],
                         stop_at: None,
+                        stall: false,
                     }],
                     readers: vec![vec![ROp::QSnap, ROp::WaitPubs(1), ROp::QSnap, ROp::WaitPubs(1 + n), ROp::QSnap, ROp::WaitPubs(2 + n), ROp::QSnap]],
                     policy: Policy::Random,
@@ -1585,20 +1614,25 @@ impl Property for C03 {
 pub struct C18;
 
 fn c18_strategy() -> BoxedStrategy<ConcCase> {
-    let reader = prop::collection::vec(prop_oneof![6 => Just(ROp::Snap), 2 => Just(ROp::QSnap), 1 => (0u32..4).prop_map(ROp::WaitPubs), 2 => (1u32..40).prop_map(ROp::Fire)], 1..5);
+    let reader = prop::collection::vec(
+        prop_oneof![6 => Just(ROp::Snap), 2 => Just(ROp::QSnap), 1 => Just(ROp::Open), 1 => (0u32..4).prop_map(ROp::WaitPubs), 2 => (1u32..40).prop_map(ROp::Fire)],
+        1..5,
+    );
     (
         init_strategy(),
-        (1u32..6, prop_oneof![1 => Just(None), 1 => (0u32..70).prop_map(Some)]),
+        (1u32..6, prop_oneof![1 => Just(None), 1 => (0u32..70).prop_map(Some)], any::<bool>()),
         prop::collection::vec(reader, 1..3),
         policy_strategy(),
         prop::collection::vec(any::<u16>(), 0..300),
         reads_strategy(160),
     )
-        .prop_map(|(init, (pubs, stop_at), readers, policy, sched, reads)| ConcCase {
+        .prop_map(|(init, (pubs, stop_at, stall), readers, policy, sched, reads)| ConcCase {
             init,
             lives: vec![Life {
                 ops: vec![WOp::Publish(pubs + 40)],
                 stop_at,
+                // dead (its mapping, descriptors and locks are gone) or stalled (it keeps them)
+                stall: stall && stop_at.is_some(),
             }],
             readers,
             policy,
@@ -1616,6 +1650,9 @@ fn c18_check(case: &ConcCase, env: &mut Env) -> Verdict {
     let crashed_inside_update = run.events.iter().any(|e| matches!(e, Event::LifeEnd { crashed: true, gen_after: Some(g), .. } if g & 1 == 1));
     if crashed_inside_update {
         v.label("writer-stopped-inside-update");
+    }
+    if case.lives.iter().any(|l| l.stall) && run.events.iter().any(|e| matches!(e, Event::LifeEnd { crashed: true, .. })) {
+        v.label("writer-stalled-not-dead");
     }
     if j.retries_seen >= 3 {
         v.label("three-or-more-retries");
@@ -1642,7 +1679,7 @@ impl Property for C18 {
     type Case = ConcCase;
     const ID: &'static str = "C18";
     fn rule() -> String {
-        "cases = as C02 plus: a writer that stops for ever before its n-th scheduling point (n in 0..70: inside start-up, inside any update, between updates), and 'under fire' calls during which the writer completes one more update after every copy the reader makes (1..40 rounds generated; the full 1,000,000-retry budget in the enumerated extras). Oracle per snapshot() call, counted by the shim: if the first version read is 0, or the first generation read is 0, odd or equal to the cached one, the call makes no record copy and at most 2 shared loads and returns its previous snapshot; every call returns within 2^25 (33.5 M) shared accesses (the code's own budget is 10^6 retries x ~10 accesses = 10 M); a failed call must have tried at least one copy; plus C02's no-mixture oracle. Non-trivial: >= 3 retries in a call, or the writer stopped inside an update while a reader call overlapped it, or a call that exhausted the retry budget.".into()
+        "cases = as C02 plus: a writer that stops for ever before its n-th scheduling point (n in 0..70: inside start-up, inside any update, between updates), either dead (mapping, descriptors and locks gone) or stalled (it keeps them; half of the stopped writers), and 'under fire' calls during which the writer completes one more update after every copy the reader makes (1..40 rounds generated; the full 1,000,000-retry budget in the enumerated extras). Oracle per snapshot() call, counted by the shim: if the first version read is 0, or the first generation read is 0, odd or equal to the cached one, the call makes no record copy and at most 2 shared loads and returns its previous snapshot; every call returns within 2^25 (33.5 M) shared accesses (the code's own budget is 10^6 retries x ~10 accesses = 10 M); a failed call must have tried at least one copy; plus C02's no-mixture oracle. Non-trivial: >= 3 retries in a call, or the writer stopped inside an update while a reader call overlapped it, or a call that exhausted the retry budget.".into()
     }
     fn assumptions() -> Vec<String> {
         C02::assumptions()
@@ -1670,7 +1707,7 @@ impl Property for C18 {
         120
     }
     fn floors() -> Vec<(&'static str, f64)> {
-        vec![("writer-stopped-inside-update", 0.2), ("three-or-more-retries", 0.05), ("cache-served-on-odd-zero-or-same-generation", 0.3)]
+        vec![("writer-stopped-inside-update", 0.2), ("writer-stalled-not-dead", 0.1), ("three-or-more-retries", 0.05), ("cache-served-on-odd-zero-or-same-generation", 0.3)]
     }
     fn max_shrink_iters(_t: Tier) -> u32 {
         600
@@ -1697,6 +1734,7 @@ impl Property for C18 {
                     lives: vec![Life {
                         ops: vec![WOp::Publish(3)],
                         stop_at: Some(stop),
+                        stall: false,
                     }],
                     readers: vec![vec![ROp::Snap, ROp::Snap, ROp::QSnap]],
                     policy: Policy::Random,
@@ -1739,6 +1777,7 @@ impl Property for C18 {
                 lives: vec![Life {
                     ops: vec![WOp::Publish(r + 5)],
                     stop_at: None,
+                    stall: false,
                 }],
                 readers: vec![vec![ROp::Snap, ROp::Fire(r), ROp::QSnap]],
                 policy: Policy::Random,
@@ -1774,7 +1813,7 @@ fn life_strategy(max_stop: u32) -> BoxedStrategy<Life> {
         prop::collection::vec(prop_oneof![6 => (0u32..3).prop_map(WOp::Publish), 1 => (1u32..4).prop_map(WOp::Skip)], 0..3),
         prop_oneof![2 => Just(None), 5 => (0u32..max_stop).prop_map(Some)],
     )
-        .prop_map(|(ops, stop_at)| Life { ops, stop_at })
+        .prop_map(|(ops, stop_at)| Life { ops, stop_at, stall: false })
         .boxed()
 }
 
@@ -2002,14 +2041,14 @@ impl Property for C04 {
                 for stop in 0u32..48 {
                     let lives = if second {
                         vec![
-                            Life { ops: vec![WOp::Publish(2)], stop_at: None },
-                            Life { ops: vec![WOp::Publish(2)], stop_at: Some(stop) },
-                            Life { ops: vec![WOp::Publish(1)], stop_at: None },
+                            Life { ops: vec![WOp::Publish(2)], stop_at: None, stall: false },
+                            Life { ops: vec![WOp::Publish(2)], stop_at: Some(stop), stall: false },
+                            Life { ops: vec![WOp::Publish(1)], stop_at: None, stall: false },
                         ]
                     } else {
                         vec![
-                            Life { ops: vec![WOp::Publish(2)], stop_at: Some(stop) },
-                            Life { ops: vec![WOp::Publish(2)], stop_at: None },
+                            Life { ops: vec![WOp::Publish(2)], stop_at: Some(stop), stall: false },
+                            Life { ops: vec![WOp::Publish(2)], stop_at: None, stall: false },
                         ]
                     };
                     for sched_shape in 0..3u8 {
